@@ -229,7 +229,9 @@ def directed_tier(ctx, prefix):
     if ctx.quick():         # a subset: one trace-validation run per (scenario, component)
         skip = {("gp_c02_sleep", "memb_sys_f2"), ("gp_c02_2u", "memb_sys"), ("gp_c02_sleep", "memb_sys_enosys"), ("gp_c02_sleep", "mb_compat"), ("gp_c02_2u", "mb_f1"),
                 ("gp_c02_2u", "memb_sys_f1e"), ("gp_c02_sig2u", "memb_sys_sigfx"), ("gp_c15_unreg", "memb_nosys"), ("gp_c15_rereg", "memb_nosys")}
-        return directed(ctx, [e for e in corpus if (e["scenario"], G.comp_of(e["component"])["name"]) not in skip], 2)
+        # (C15: 6 seeded completions per forced prefix -- what happens after the window, e.g. whether the held reader is still registered when the
+        # grace period splices its lists back, is left to the seeded scheduler)
+        return directed(ctx, [e for e in corpus if (e["scenario"], G.comp_of(e["component"])["name"]) not in skip], 6 if prefix == "gp_c15_" else 2)
     big = lambda scn: len(load_scenario(scn)["threads"]) > 2
     fresh = G.generate([p for p in G.PLAN if p[0].startswith(prefix) and not big(p[0])], tsos=(0, 1))
     ctx.extra["directed_targets_unreachable_in_TLC"] = ["%s/%s/tso%d" % (e["scenario"], e["target"], e["tso"]) for e in fresh if not e["schedule"]]
@@ -379,9 +381,21 @@ def run(ctx):
     else:
         fence_table(ctx, FENCES)
     finish(ctx)
+    # the qsbr and bp flavors (their own specifications and drivers)
+    from props import qsbr_parts, bp_parts
+    ctx.extra.setdefault("flavors_covered", []).extend(["mb", "memb+sys_membarrier", "memb without sys_membarrier"])
+    if len(ctx.violations) < conc.MAXV:
+        qsbr_parts.run_c02(ctx); ctx.extra["flavors_covered"].append("qsbr")
+    if len(ctx.violations) < conc.MAXV:
+        bp_parts.run_c02(ctx); ctx.extra["flavors_covered"].append("bp")
 
 
 def replay(ctx, path):
+    from props import qsbr_parts, bp_parts
+    if qsbr_parts.is_mine(path):
+        return qsbr_parts.replay_c02(ctx, path)
+    if bp_parts.is_bp_replay(path):
+        return bp_parts.replay(ctx, path)
     mp = os.path.join(path, "meta.json")
     if not os.path.exists(mp):
         raise RuntimeError("no meta.json in %s" % path)
